@@ -58,6 +58,38 @@ def cmd_import(wt, names):
         print(f'confirmed {sid}: {meta.get("summary", "")[:100]}')
 
 
+def cmd_run_copy(ids, tier, props=None):
+    """Like cmd_run, but the seeded change is applied to a scratch worktree of /repo under /tmp (removed straight
+    afterwards) and the check is pointed at it with VERIF_REPO, so that /repo itself is never touched and several
+    seeded changes can be run while other checks use /repo."""
+    ids = ids or sorted(os.listdir(SEEDED))
+    for sid in ids:
+        d = os.path.join(SEEDED, sid)
+        meta = json.load(open(os.path.join(d, 'meta.json')))
+        wt = f'/tmp/seedrun_{os.getpid()}_{sid}'
+        rc, out = sh(f'git -C /repo worktree add --detach {wt} HEAD')
+        if rc:
+            print(f'{sid}: cannot create worktree: {out[-200:]}'); continue
+        results = {}
+        try:
+            rc, out = sh(f'git apply {d}/patch.diff', cwd=wt)
+            if rc:
+                print(f'{sid}: patch does not apply: {out[-200:]}'); continue
+            ev = f'{ROOT}/.scratch/evidence_seeded_{os.getpid()}'
+            for prop in (props or [meta['property']]):
+                t0 = time.time()
+                rc, out = sh(f'mkdir -p {ev} && VERIF_REPO={wt} VERIF_EVIDENCE_DIR={ev} ./check {prop} --tier {tier}', cwd=ROOT, timeout=7200)
+                viol = [l for l in out.splitlines() if l.startswith('VIOLATION')]
+                detail = [l for l in out.splitlines() if l.startswith('  ')][:2]
+                results[prop] = {'rc': rc, 'violations': len(viol), 'first': (detail[0][:300] if detail else ''),
+                                 'wall_s': round(time.time() - t0, 1), 'tier': tier, 'mode': 'scratch worktree + VERIF_REPO'}
+                print(f"{sid}: check {prop} {tier} -> rc={rc} violations={len(viol)} {detail[0][:160] if detail else out[-200:]}")
+        finally:
+            sh(f'git -C /repo worktree remove --force {wt}')
+        meta.setdefault('detection', {}).update(results)
+        json.dump(meta, open(os.path.join(d, 'meta.json'), 'w'), indent=1)
+
+
 def cmd_run(ids, tier, props=None):
     ids = ids or sorted(os.listdir(SEEDED))
     for sid in ids:
@@ -101,4 +133,7 @@ if __name__ == '__main__':
                 props = a[i + 1].split(','); i += 2
             else:
                 rest.append(a[i]); i += 1
+        if '--copy' in rest:
+            rest.remove('--copy')
+            sys.exit(cmd_run_copy(rest, tier, props) or 0)
         sys.exit(cmd_run(rest, tier, props) or 0)
